@@ -1118,7 +1118,11 @@ class Interp:
                             return o[-i]
                     raise PyRaise("IndexError", "index out of range")
                 if isinstance(o, dict):
+                    if _KeyBox(idx) in o:           # stored under the same term
+                        return o[_KeyBox(idx)]
                     for k2 in list(o):
+                        if isinstance(k2, _KeyBox):
+                            continue
                         if self.truth(compare(idx, k2, "==")):
                             return o[k2]
                     raise PyRaise("KeyError", "symbolic key")
@@ -1180,6 +1184,11 @@ class Interp:
                             self.setitem(o, -i, v)
                             return
                     raise PyRaise("IndexError", "assignment index out of range")
+                if isinstance(o, dict):
+                    # a dict entry under a symbolic key (same-term policy, see `contains`): replaces the entry stored under
+                    # the same term, otherwise a new entry
+                    o[_KeyBox(idx)] = v
+                    return
                 raise Unsupported("symbolic index assignment")
             idx = c
         if isinstance(o, np.ndarray) and o.dtype != object and self.lib.contains_sym(v):
@@ -1446,7 +1455,9 @@ class Interp:
             return Or(*[self.compare_op(ast.Eq(), y, x) for y in self.iterate(container)]) if True else False
         if isinstance(container, dict):
             if is_sym(x):
-                raise Unsupported("symbolic key membership")
+                # CPython hashes the key: here a symbolic key matches an entry stored under the SAME term only (as for the
+                # memoising decorators: two different terms that might be equal count as different keys, never a guessed hit)
+                return _KeyBox(x) in container
             return x in container
         if isinstance(container, (list, tuple, set, frozenset, np.ndarray, range)) or True:
             if isinstance(container, str):
@@ -1791,3 +1802,17 @@ class Interp:
             return None
         finally:
             self.frames.pop()
+
+
+class _KeyBox:
+    """hashable box around a symbolic dict key: equal iff the terms are structurally the same"""
+    __slots__ = ("sym",)
+
+    def __init__(self, sym):
+        self.sym = sym
+
+    def __hash__(self):
+        return hash(self.sym)
+
+    def __eq__(self, other):
+        return isinstance(other, _KeyBox) and other.sym.k == self.sym.k and bool(other.sym.t.eq(self.sym.t))
